@@ -240,6 +240,21 @@ def fold_leb128(repo: Repo) -> dict | None:
     try:
         for signed in (False, True):
             cls = Sym("leb", {"signed": signed}, {"__new__": Host(lambda c, v: v)})
+            # class-level constants and helper methods of the type (limits, masks, private helpers) belong to what the slots compute with
+            ci = repo.classes.get("LEB128")
+            if ci is not None:
+                for an, av in ci.attrs.items():
+                    if an in cls.attrs:
+                        continue
+                    try:
+                        cv = Evaluator(base_env).ev(av, dict(base_env))
+                    except (Refused, Raised, TypeError, ValueError, KeyError):
+                        continue
+                    if isinstance(cv, (int, str, bytes, tuple, frozenset)) and not isinstance(cv, bool) or cv is None:
+                        cls.attrs[an] = cv
+                for q_, f_ in wr.module.functions.items():
+                    if q_.startswith("LEB128.") and q_.count(".") == 1 and q_.split(".")[1] not in ("_read", "_write", "_read_0", "__new__"):
+                        cls.methods.setdefault(q_.split(".")[1], UserFunc(f_.node))
             for v in leb_values():
                 st = _Stream()
                 out["cases"] += 1
@@ -269,7 +284,16 @@ def fold_leb128(repo: Repo) -> dict | None:
                     continue
                 if r != v or st.pos != len(want):
                     out["read_bad"].append((signed, v, want.hex(), r, st.pos))
-            # a truncated value must raise, not loop or return
+            # a truncated value must raise, not loop or return - however long it already is
+            for cut in (b"\x80" * 19, b"\x80" * 25, b"\xff" * 12):
+                st = _Stream(cut)
+                try:
+                    r = Evaluator(base_env, steps=6000).call_user(UserFunc(rd.node), [cls, st.sym()], {})
+                    out["read_bad"].append((signed, f"truncated input of {len(cut)} continuation bytes", "", r, st.pos))
+                except Raised:
+                    pass
+                except Exhausted:
+                    out["loop_bad"].append(("read", signed, "truncated input"))
             st = _Stream(b"\x80\x80")
             try:
                 r = Evaluator(base_env, steps=4000).call_user(UserFunc(rd.node), [cls, st.sym()], {})
@@ -923,7 +947,8 @@ def fold_union_proxies(repo: Repo) -> dict | None:
         return t
 
     u8 = tsym("uint8", False)
-    origin_t = tsym("origin", True, [("x", u8), ("y", u8)])
+    pos_t = tsym("pos", True, [("y", u8)])
+    origin_t = tsym("origin", True, [("x", u8), ("y", u8), ("pos", pos_t)])
     hdr_t = tsym("hdr", True, [("kind", u8), ("origin", origin_t)])
     anon_t = tsym("__anonymous_0__", True, [("lo", u8), ("hi", u8)])
     union_t = tsym("U", True, [("__anonymous_0__", anon_t), ("hdr", hdr_t), ("word", u8)])
@@ -951,7 +976,8 @@ def fold_union_proxies(repo: Repo) -> dict | None:
         return p_
 
     try:
-        origin = value(origin_t, x=1, y=2)
+        pos = value(pos_t, y=7)
+        origin = value(origin_t, x=1, y=2, pos=pos)
         hdr = value(hdr_t, kind=3, origin=origin)
         anon = value(anon_t, lo=4, hi=5)
         u = value(union_t, **{"__anonymous_0__": anon, "hdr": hdr, "word": 9, "lo": 4, "hi": 5})
@@ -966,7 +992,7 @@ def fold_union_proxies(repo: Repo) -> dict | None:
         def is_proxy(v, attr, target):
             return isinstance(v, Sym) and v.label.startswith("proxy#") and v.attrs["__union__"] is u and v.attrs["__attr__"] == attr and v.attrs["__target__"] is target
 
-        for holder, name, attr, target in ((u, "__anonymous_0__", "__anonymous_0__", anon), (u, "hdr", "hdr", hdr), (hdr, "origin", "hdr", origin)):
+        for holder, name, attr, target in ((u, "__anonymous_0__", "__anonymous_0__", anon), (u, "hdr", "hdr", hdr), (hdr, "origin", "hdr", origin), (origin, "pos", "hdr", pos)):
             if not is_proxy(holder.attrs.get(name), attr, target):
                 got = holder.attrs.get(name)
                 out["bad"].append(("proxify", f"member '{name}' of {holder.label}", f"{got.label if isinstance(got, Sym) else got!r}"
@@ -1265,6 +1291,7 @@ def fold_union_write(repo: Repo) -> dict | None:
         "anonymous struct of 3 / uint16": [(None, 3, True), ("v", 2, False)],
         "only an anonymous struct of 3": [(None, 3, True)],
         "uint16 / uint16 in a union padded to 4": [("a", 2, False), ("b", 2, False)],
+        "uint8[8] / a structure of 8 with padding": [("raw", 8, False), ("p", 8, False)],
     }
     try:
         for label, members in layouts.items():
@@ -1296,8 +1323,9 @@ def fold_union_write(repo: Repo) -> dict | None:
                 return len(b)
             ssym.methods["write"] = Host(wwrite)
             cls = Sym("U", {"__fields__": fields, "dynamic": False, "size": size})
-            env = {"isinstance": Host(lambda o, k: k is struct_meta and isinstance(o, Sym) and bool(o.attrs.get("is_struct"))), "StructureMetaType": struct_meta,
-                   "len": Host(lambda o: o.attrs["size"] if isinstance(o, Sym) else len(o)), "getattr": Host(lambda o, n, *d: "<value>")}
+            env = {q_: UserFunc(f_.node) for q_, f_ in repo.module("types/structure.py").functions.items() if "." not in q_}
+            env.update({"isinstance": Host(lambda o, k: k is struct_meta and isinstance(o, Sym) and bool(o.attrs.get("is_struct"))), "StructureMetaType": struct_meta,
+                        "len": Host(lambda o: o.attrs["size"] if isinstance(o, Sym) else len(o)), "getattr": Host(lambda o, n, *d: "<value>")})
             ev_ = Evaluator(env, steps=4000)
             try:
                 ev_.call_user(UserFunc(fi.node), [cls, ssym, Sym("data")], {})
@@ -1309,6 +1337,9 @@ def fold_union_write(repo: Repo) -> dict | None:
             first = log[0] if log else None
             if len(written) != size or first is None or first[1] != max(m[1] for m in members) or any(b != 0 for b in written[first[1]:]) or len(log) != 1:
                 out["bad"].append((label, f"wrote members {log}, {len(written)} bytes in all", f"one member of {max(m[1] for m in members)} bytes then zero padding up to {size}"))
+            elif first[0] != "<anonymous struct>" and first[0] != next(nm for nm, n, _a in members if nm is not None and n == first[1]):
+                # among equally large members the first declared carries the bytes (a later one may be a structure with holes)
+                out["bad"].append((label, f"dumped through member '{first[0]}'", "through the first declared member of that size"))
             elif first[0] == "<anonymous struct>" and any(nm is not None and n >= first[1] for nm, n, _a in members):
                 # a structure has holes (padding, unused bits of a unit) that a scalar of the same size does not: on a tie the regular member carries the bytes
                 out["bad"].append((label, "dumped through the anonymous structure", "through the regular member of the same size (the structure may have holes the member does not)"))
